@@ -26,7 +26,7 @@ import (
 )
 
 const rule = "cases = rapid-drawn scenarios (registry mode long/short idle limit/short lifetime limit, 2-5 logical clients each holding at most one transaction, " +
-	"3-28 steps over begin{direct,Registry.Begin,service RPC; ro/rw; optional 20-100 ms deadline}/put/del/get/scan/commit/rollback/abandon/rejected TxGet/" +
+	"6-32 steps over begin{direct,Registry.Begin,service RPC; ro/rw; optional 20-100 ms deadline}/put/del/get/scan/commit/rollback/abandon/rejected TxGet/" +
 	"CleanupStaleTransactions/CleanupConnection/GracefulShutdown, drawn way of ending what is still open), each executed in a child process on its own engine; " +
 	"oracle = lock-aware model (who holds the RW lock, which begins are queued) + map model of the database + closed-error rule + 'a fresh read-write " +
 	"transaction begins within 5 s and put+commit works' after every scenario (scenarios with a timed-out begin are run 4 times); " +
@@ -52,6 +52,7 @@ type Step struct {
 	DeadlineMs int    `json:"deadline_ms,omitempty"` // begin: context deadline, used when the call certainly has to wait longer
 	K          int    `json:"k,omitempty"`
 	V          string `json:"v,omitempty"`
+	Again      bool   `json:"again,omitempty"`       // put/del/get/scan/commit/rollback: prefer a client whose transaction is already finished
 	Keep       bool   `json:"keep,omitempty"`        // commit/rollback on the registry path: leave the handle in the registry
 	Svc        bool   `json:"svc,omitempty"`         // cleanup_conn through KevoServiceServer.CleanupConnection
 	Big        bool   `json:"big,omitempty"`         // bad_get: 4097-byte key instead of an empty one
@@ -278,8 +279,8 @@ var opTable = func() []string {
 		op string
 		n  int
 	}{
-		{"begin", 30}, {"put", 9}, {"del", 4}, {"get", 4}, {"scan", 2}, {"commit", 13}, {"rollback", 11},
-		{"abandon", 6}, {"bad_get", 4}, {"cleanup_stale", 5}, {"cleanup_conn", 5}, {"shutdown", 1},
+		{"begin", 24}, {"put", 9}, {"del", 3}, {"get", 4}, {"scan", 2}, {"commit", 15}, {"rollback", 12},
+		{"abandon", 9}, {"bad_get", 4}, {"cleanup_stale", 6}, {"cleanup_conn", 7}, {"shutdown", 1},
 	}
 	var out []string
 	for _, e := range w {
@@ -307,10 +308,15 @@ func genStep(t *rapid.T) Step {
 	case "put":
 		s.K = rapid.IntRange(0, nKeys-1).Draw(t, "k")
 		s.V = fmt.Sprintf("v%d", rapid.IntRange(0, 999).Draw(t, "v"))
+		s.Again = rapid.IntRange(0, 9).Draw(t, "again") < 3
 	case "del", "get":
 		s.K = rapid.IntRange(0, nKeys-1).Draw(t, "k")
+		s.Again = rapid.IntRange(0, 9).Draw(t, "again") < 3
+	case "scan":
+		s.Again = rapid.IntRange(0, 9).Draw(t, "again") < 3
 	case "commit", "rollback":
 		s.Keep = rapid.IntRange(0, 9).Draw(t, "keep") < 3
+		s.Again = rapid.IntRange(0, 9).Draw(t, "again") < 4
 	case "cleanup_conn":
 		s.Peer = rapid.IntRange(0, 9).Draw(t, "peer") < 8
 		s.Svc = rapid.Bool().Draw(t, "via_service")
@@ -337,7 +343,7 @@ func genCase(t *rapid.T) Case {
 	for i := 0; i < nInit; i++ {
 		c.Init = append(c.Init, KV{K: i, V: fmt.Sprintf("i%d", i)})
 	}
-	c.Steps = rapid.SliceOfN(rapid.Custom(genStep), 3, 28).Draw(t, "steps")
+	c.Steps = rapid.SliceOfN(rapid.Custom(genStep), 6, 32).Draw(t, "steps")
 	return c
 }
 
